@@ -207,19 +207,30 @@ def explore(ctx):
                 continue
             for pos in range(-1, n + 1):
                 do_search(tparts, s, pos, True, 'search:ternary')
+    # chained conditionals (a failed candidate overlaps the start of the real match) and border cases
+    for s_ in [' a ? a ? a : a : a ', '(a?a?a:a)', ' a ? a ? a : a ;', 'a?a:a', ' a?a?a:a', ';a ? (a) ? a : a;', ' a ? a : a ? a : a ', ':a?a:a:', ' a ? a?a:a : a ']:
+        for pos in range(-1, len(s_) + 1):
+            do_search(tparts, s_, pos, True, 'search:ternary-chained')
     peep_lists = [x[0] for x in PeepPass.delimited_regexes_to_replace]
     sample = [peep_lists[i] for i in sorted(set(rnd.sample(range(len(peep_lists)), 6 if ctx.quick() else 25)))]
     toks = ['a', '1', '(', ')', ',', ' ', '=', '{', '}', ';', '<', '>', '+', 'x', '0']
     for parts in sample:
         for _ in range(60 if ctx.quick() else 400):
             s = ''.join(rnd.choice(toks) for _ in range(rnd.randint(0, 9)))
-            for pos in (rnd.randint(-1, len(s) + 1), 0):
+            for pos in (rnd.randint(-1, len(s) + 1), 0, len(s) - 1, len(s)):
                 do_search(parts, s, pos, False, 'search:peep')
     # random longer strings
     for _ in range(150 if ctx.quick() else 2000):
         expr, alpha = rnd.choice(kinds)
         s = ''.join(rnd.choice(alpha + alpha[:2]) for _ in range(rnd.randint(9, 60)))
         do_find(expr, '', s, rnd.randint(-1, len(s) + 1), 'find:random')
+    # single-character patterns at the very last position (peep::a rules) and search=True variants
+    from cvise.utils import nestedmatcher as nm2
+    for ch in ';,+-:!~':
+        for s_ in ('int x' + ch, ch, 'a' + ch + 'b' + ch, ''):
+            for pos in range(-1, len(s_) + 1):
+                for srch in (False, True):
+                    do_search([nm2.RegExPattern(re.escape(ch))], s_, pos, srch, 'search:single-char')
     # history independence: the same text queried for different delimiter kinds and positions in random order
     # (a matcher is a function of its arguments: nothing may carry over from one call to the next)
     mixed = ['{a} (b)', '(a) {b} [c] <d>', '{(})', '<(a)>{[b]}', '((a)) {{b}} (', 'x{y(z)}w[<q>]']
